@@ -623,12 +623,96 @@ def rule_skip_test(chk, fb):
         chk.ob(r, "%s" % pfn.split("::", 2)[-1], not miss, where=fb.loc(pfn), detail="interning persists %s; the test reads %s%s" % (sorted(persisted), sorted(read), "; a style that only has %s is treated as empty and its cell is dropped" % miss if miss else ""))
 
 
+def rule_eq_chain(chk, fb):
+    """The whole-style lookup compares Style values with `==`: that only distinguishes what the equality of every
+    component looks at, all the way down."""
+    import re
+
+    r = chk.rule(
+        "C05.a.eq",
+        "equality is total below Style: every crate struct reachable from Style through field types either derives PartialEq or has a hand-written eq that reads every one of its fields",
+        floor=15,
+    )
+    seen = set()
+    work = [STYLE]
+    while work:
+        adt = work.pop()
+        if adt in seen or adt not in fb.adts:
+            continue
+        seen.add(adt)
+        ad = fb.adts[adt]
+        ftys = [f["ty"] for v in ad["variants"] for f in v["fields"]]
+        for ty in ftys:
+            for m in re.findall(r"[A-Za-z_][A-Za-z0-9_:]*", ty):
+                if m in fb.adts and m not in seen:
+                    work.append(m)
+        if ad["kind"] != "struct":
+            continue
+        derived = fb.has_derive(adt, "std::cmp::PartialEq")
+        manual = [d for d in fb.mir if d.startswith("<%s as std::cmp::PartialEq" % adt) and d.endswith("::eq")]
+        if derived:
+            ok, why = True, "derived"
+        elif manual:
+            fields = set(fb.struct_fields(adt))
+            read = fields_read(fb, manual[0], adt)
+            miss = sorted(fields - read)
+            ok, why = not miss, "hand-written eq reads %s%s" % (sorted(read), "; ignores %s: two values that differ only there compare equal and are interned as one style" % miss if miss else "")
+        else:
+            ok, why = True, "no PartialEq (not compared)"
+            continue
+        chk.ob(r, adt.split("::")[-1], ok, where=fb.adts[adt]["file"], detail=why)
+
+
+# fields that are user intent for the NEXT save, not content: nothing but their public setter may assign them
+INTENT_FLAGS = {
+    ("structs::column::Column", "auto_width"): "asks the writer to recompute the width from the cell contents; a loaded width must not be overwritten because the file said bestFit",
+}
+
+
+def rule_intent_flags(chk, fb):
+    from props.C11 import written_fields
+
+    r = chk.rule(
+        "C05.h",
+        "recompute-on-save flags are set by the caller only: the fields listed as user intent (they make the writer replace a stored value by a computed one) are assigned nowhere but in their public setter",
+        floor=1,
+    )
+    for (adt, f), why in sorted(INTENT_FLAGS.items()):
+        if adt not in fb.adts or f not in fb.struct_fields(adt):
+            chk.ob(r, "%s.%s" % (adt.split("::")[-1], f), False, detail="field not found")
+            continue
+        writers = []
+        for d, b in fb.mir.items():
+            if b.get("derived") or d.endswith(("::default", "::clone", "::clone_from")):
+                continue
+            if f in written_fields(b, adt):
+                writers.append(d)
+            else:
+                # through the value wrapper's setter:  self.f.set_value(..)
+                for _, t in fb.calls_in(b):
+                    if t.get("fn", "").split("::")[-1].startswith("set_value") and t["args"] and "p" in t["args"][0]:
+                        pl = t["args"][0]["p"]
+                        if any(isinstance(e, dict) and e.get("of") == adt and e.get("f") == f for e in pl.get("pr", [])):
+                            writers.append(d)
+                        else:
+                            for bl in b["blocks"]:
+                                for st in bl["s"]:
+                                    if st["k"] == "assign" and st["lhs"]["l"] == pl["l"] and st["rv"]["k"] == "ref" and any(isinstance(e, dict) and e.get("of") == adt and e.get("f") == f for e in st["rv"]["place"].get("pr", [])):
+                                        writers.append(d)
+        writers = sorted(set(writers))
+        bad = [w for w in writers if not (fb.mir[w].get("self_ty") == adt and fb.mir[w].get("vis") == "pub" and w.split("::")[-1].startswith("set_"))]
+        chk.ob(r, "%s.%s" % (adt.split("::")[-1], f), bool(writers) and not bad, where=fb.adts[adt]["file"],
+               detail="%s; assigned in %s%s" % (why, [w.split("::")[-1] for w in writers], "" if not bad else " - NOT only in its public setter: %s" % [b_.split("::", 2)[-1] for b_ in bad]))
+
+
 def run(chk, fb, tier):
     rule_coverage(chk, fb)
+    rule_eq_chain(chk, fb)
     rule_ambiguity(chk, fb)
     rule_wiring(chk, fb)
     rule_run_merge(chk, fb)
     rule_loop_emits(chk, fb)
     rule_skip_test(chk, fb)
+    rule_intent_flags(chk, fb)
     chk.assume("MD5 digests of different key strings differ (collision-free for the purpose of interning)")
     chk.note("C05.e (reader/writer symmetry of the style structs) is decided by the symmetry engine under C04.b; not decided: equality of reloaded styles (value-level)")
